@@ -119,6 +119,20 @@ func (c04) Case(c *core.Ctx) {
 		kp = []string{"%", "_", "&"}[r.Intn(3)]
 		c.Count("altkeyprefix")
 	}
+	// an element named like one of the reserved keys under the current key prefix (_seq, _attr, _text, ...) is outside
+	// the domain: the MapSeq representation cannot tell it from the reserved entry
+	reservedClash := false
+	root.Walk(func(e *xt.Node) {
+		for _, rn := range []string{"seq", "attr", "text", "comment", "directive", "procinst", "target", "inst"} {
+			if e.Local == kp+rn && e.Prefix == "" {
+				reservedClash = true
+			}
+		}
+	})
+	if reservedClash {
+		c.Count("skipped:outside-domain")
+		return
+	}
 	doc := xt.Render(r, root, xt.Style{NoWS: r.Intn(2) == 0})
 	want, werr := tokenStream(doc)
 	if werr != nil {
